@@ -12,6 +12,7 @@ import (
 	"time"
 
 	"github.com/piotrnar/gocoin/client/common"
+	"github.com/piotrnar/gocoin/lib/btc"
 	"github.com/piotrnar/gocoin/client/txpool"
 	"verif/mon/chainsim"
 	"verif/ref/refchain"
@@ -217,7 +218,7 @@ type kindW struct {
 func (h *hist) pickKind() string {
 	ks := []kindW{{"simple", 16}, {"child", 18}, {"chain", 5}, {"diamond", 4}, {"orphan", 8}, {"flush-queue", 7},
 		{"rbf", 11}, {"fan", 3}, {"invalid", 8}, {"resubmit", 3}, {"mine-pool", 3}, {"mine-mixed", 6}, {"reorg", 3},
-		{"tick", 3}, {"save-load", 2}}
+		{"tick", 3}, {"save-load", 2}, {"rank-squeeze", 1}}
 	if h.prof.evict {
 		ks = append(ks, kindW{"big", 70})
 	}
@@ -333,6 +334,8 @@ func (h *hist) doStep() bool {
 		return h.stepMineMixed()
 	case "reorg":
 		return h.stepReorg()
+	case "rank-squeeze":
+		h.stepRankSqueeze()
 	case "tick":
 		h.stepTick()
 	case "save-load":
@@ -362,6 +365,108 @@ func (h *hist) stepSimple() {
 		return
 	}
 	h.sub(h.build(ins, bopt{family: "simple", fee: h.randFee(), bad: -1}), h.path())
+}
+
+// stepRankSqueeze: some fifty independent transactions, each with a fee rate a little below the one before and above
+// a cheap one submitted first: every one of them is sorted in right above the cheap one, into the same shrinking gap of
+// the incrementally kept sort ranks. Then a child of the last two (the better-listed parent named first) that pays
+// more than either.
+func (h *hist) stepRankSqueeze() {
+	fc := h.freeConfirmed()
+	if len(fc) < 62 {
+		// not enough independent coins: split a rich one into 64 and have that confirmed first (a mined block rebuilds the
+		// sorted list, the squeeze starts from a fresh one)
+		var rich []OP
+		for _, op := range fc {
+			if c, _ := h.coin(op); c.Value > 64*300000 {
+				rich = append(rich, op)
+			}
+		}
+		if len(rich) == 0 {
+			h.stepSimple()
+			return
+		}
+		c, _ := h.coin(rich[0])
+		outs := make([]refchain.TxOut, 64)
+		for i := range outs {
+			outs[i] = refchain.TxOut{Value: (c.Value - 20000) / 64, Script: h.outScript()}
+		}
+		split := h.build(rich[:1], bopt{family: "squeeze-splitter", bad: -1, outs: outs, version: 2})
+		if !h.deliver(h.blockFrom(nil, []*genTx{split}), "squeeze-splitter", true) {
+			return
+		}
+		h.check(false)
+		if h.stopped {
+			return
+		}
+		fc = h.freeConfirmed()
+		if len(fc) < 62 {
+			h.stepSimple()
+			return
+		}
+	}
+	// someone asks for the sorted listing: from here on the list is kept up to date incrementally (insertions by rank)
+	txpool.TxMutex.Lock()
+	txpool.GetSortedMempool()
+	dirty := txpool.SortListDirty
+	txpool.TxMutex.Unlock()
+	if !dirty {
+		h.run.Inc("rank_squeezes_on_incrementally_kept_list")
+	}
+	n := 58
+	// sat per 1000 vbytes: far above what the rest of the pool pays, strictly decreasing by more than the rounding of a fee
+	// to whole satoshis can blur
+	rateOf := func(k int) uint64 { // 2 % less each time: more than signature-length and rounding differences can blur
+		v := 500000.0
+		for i := 0; i < k; i++ {
+			v *= 0.98
+		}
+		return uint64(v)
+	}
+	mk := func(ins []OP, rate uint64, fam string) *genTx {
+		var sum uint64
+		for _, op := range ins {
+			c, _ := h.coin(op)
+			sum += c.Value
+		}
+		scr := h.outScript()
+		probe := h.build(ins, bopt{family: "squeeze-probe", bad: -1, noReg: true, version: 2, outs: []refchain.TxOut{{Value: sum / 2, Script: scr}}})
+		fee := (rate*vsizeOf(probe.t) + 999) / 1000
+		if fee >= sum {
+			fee = sum / 2
+		}
+		return h.build(ins, bopt{family: fam, bad: -1, version: 2, outs: []refchain.TxOut{{Value: sum - fee, Script: scr}}})
+	}
+	if h.sub(mk(h.take(&fc, 1), 50000, "squeeze-floor"), "net-trusted") != 0 || h.stopped {
+		return
+	}
+	var last, prev *genTx
+	accepted := 0
+	for k := 0; k < n && !h.stopped; k++ {
+		x := mk(h.take(&fc, 1), rateOf(k), "squeeze")
+		if h.sub(x, "net-trusted") != 0 {
+			continue
+		}
+		prev, last = last, x
+		accepted++
+	}
+	h.run.Distinct("rank_squeeze_lengths", accepted)
+	if h.stopped || prev == nil || last == nil {
+		return
+	}
+	a, b := h.outsOf(prev), h.outsOf(last)
+	if len(a) == 0 || len(b) == 0 {
+		return
+	}
+	txpool.TxMutex.Lock()
+	pa, pb := txpool.TransactionsToSend[btc.NewUint256(prev.id[:]).BIdx()], txpool.TransactionsToSend[btc.NewUint256(last.id[:]).BIdx()]
+	if pa != nil && pb != nil {
+		h.note("squeeze: ranks of the last two %d %d (gap %d), list dirty %v", pa.SortRank, pb.SortRank, pb.SortRank-pa.SortRank, txpool.SortListDirty)
+		h.run.Distinct("rank_gap_between_the_last_two_squeezed", pb.SortRank-pa.SortRank)
+	}
+	txpool.TxMutex.Unlock()
+	h.run.Inc("rank_squeezes_with_child")
+	h.sub(mk([]OP{a[0], b[0]}, 700000, "squeeze-child"), "net-trusted")
 }
 
 func (h *hist) stepChild() {
@@ -897,7 +1002,7 @@ func (h *hist) stepMineMixed() bool {
 		for bidx, tr := range txpool.TransactionsRejected {
 			_ = bidx
 			x := h.subbed[Hash(tr.Id.Hash)]
-			if x == nil || x.badScript || x.poison != "" {
+			if x == nil || x.badScript || x.poison != "" || len(x.raw) > 50000 {
 				continue
 			}
 			switch tr.Reason { // only what was refused for pool policy (a valid transaction that lost against pooled ones)
